@@ -20,9 +20,10 @@ CONSTANTS Sids          \* ids of the driver's concurrent paginated listings
 
 VARIABLES l,            \* next line of TraceLog
           verdict,      \* "ok" or "<property>:<reason>" for the last consumed line
-          sess          \* paginated listings in progress: [Sids -> record]
+          sess,         \* paginated listings in progress: [Sids -> record]
+          nonconf       \* number of calls after which a directory was instantiated earlier/later than in the model
 
-tvars == <<dirs, leaves, mode, reply, lst, hist, l, verdict, sess>>
+tvars == <<dirs, leaves, mode, reply, lst, hist, l, verdict, sess, nonconf>>
 
 Line == TraceLog[l]
 IsEvent(e) == l <= Len(TraceLog) /\ Line.ev = e /\ l' = l + 1
@@ -88,9 +89,9 @@ DirProblem(o, p) ==
   ELSE IF p.same
   THEN \* raw state identical to the previous event: the reference must not expect a change
        IF d \notin DOMAIN dirs THEN "C13:contents"
+       ELSE IF dirs[d].lazy /\ ~o.S.dirs[d].lazy /\ o.S.dirs[d].ents # <<>> THEN "NC:real-directory-not-instantiated"
        ELSE IF o.S.dirs[d].ents # dirs[d].ents \/ o.S.dirs[d].deleted # dirs[d].deleted THEN "C13:contents"
        ELSE IF o.S.dirs[d].chg > dirs[d].chg THEN "C13:changeid-not-increased-by-modification"
-       ELSE IF o.S.dirs[d].lazy # dirs[d].lazy THEN "NC:lazy-flag"
        ELSE "ok"
   ELSE
     LET E == o.S.dirs[d]
@@ -102,6 +103,7 @@ DirProblem(o, p) ==
         vis == VisibleEnts(pe)
     IN
     IF p.deleted # E.deleted THEN "C13:deleted-flag"
+    ELSE IF p.lazy /\ ~E.lazy /\ E.ents # <<>> THEN "NC:real-directory-not-instantiated"
     ELSE IF Len(pe) # Len(E.ents) \/ Range(StripSeq(pe)) # Range(StripSeq(E.ents)) THEN "C13:contents"
     ELSE IF \E i \in 1 .. (Len(pe) - 1) : pe[i].ck >= pe[i + 1].ck THEN "C13:cookie-order"
     ELSE IF \E e \in Range(E.ents) : e.ck <= B.nc /\ q(e).ck # e.ck THEN "C13:cookie-of-existing-entry-changed"
@@ -119,16 +121,32 @@ DirProblem(o, p) ==
          THEN "C13:lookup-all-children-directories"
     ELSE IF ~p.lazy /\ StripSeq(p.alll) # StripSeq(SortedByName(SelectSeq(vis, LAMBDA e : e.k # "d")))
          THEN "C13:lookup-all-children-leaves"
-    ELSE IF p.lazy # E.lazy THEN "NC:lazy-flag"
     ELSE "ok"
 
 RECURSIVE FirstDirProblem(_, _, _)
 FirstDirProblem(o, proj, i) ==
   IF i > Len(proj) THEN "ok"
   ELSE LET r == DirProblem(o, proj[i]) IN
-       IF r # "ok" /\ r # "NC:lazy-flag" THEN r
-       ELSE LET rest == FirstDirProblem(o, proj, i + 1) IN
-            IF rest # "ok" THEN rest ELSE r
+       IF r # "ok" THEN r ELSE FirstDirProblem(o, proj, i + 1)
+
+\* When a directory is instantiated is not part of the property: if the
+\* real code instantiated a directory that is still lazy in the outcome,
+\* the outcome is instantiated too before it is compared (counted in
+\* nonconf); the opposite case is only tolerated while it is unobservable.
+RECURSIVE InstantiateObserved(_, _, _)
+InstantiateObserved(S_, proj, i) ==
+  LET S == S_ IN
+  IF i > Len(proj) THEN S
+  ELSE LET p == proj[i] IN
+       InstantiateObserved(IF ~p.busy /\ ~p.same /\ p.id \in DOMAIN S.dirs /\ ~p.lazy /\ S.dirs[p.id].lazy
+                           THEN Mat(S, p.id) ELSE S, proj, i + 1)
+Normalized(o) == [o EXCEPT !.S = InstantiateObserved(o.S, Line.proj, 1)]
+
+LazyMismatch(o, proj) ==
+  \E i \in 1 .. Len(proj) :
+     /\ ~proj[i].busy /\ proj[i].id \in DOMAIN o.S.dirs
+     /\ IF proj[i].same THEN proj[i].id \in DOMAIN dirs /\ dirs[proj[i].id].lazy # o.S.dirs[proj[i].id].lazy
+        ELSE proj[i].lazy # o.S.dirs[proj[i].id].lazy
 
 LeafProblem(o, lp) ==
   IF lp.id \notin DOMAIN o.S.leaves
@@ -147,7 +165,8 @@ AdoptDir(o, d, proj) ==
   LET P == ProjOf(proj, d)
       E == o.S.dirs[d]
       B == IF d \in DOMAIN dirs THEN dirs[d] ELSE NewDir(<<>>)
-  IN IF P = <<>> \/ P[1].same THEN E
+  IN IF P = <<>> THEN E
+     ELSE IF P[1].same THEN (IF d \in DOMAIN dirs THEN [E EXCEPT !.lazy = dirs[d].lazy] ELSE E)
      ELSE [deleted |-> P[1].deleted, lazy |-> P[1].lazy, pend |-> E.pend, chg |-> P[1].chg,
            nc |-> Max(B.nc, MaxCk(P[1].ents)), ents |-> Ents(P[1].ents)]
 Adopt(o, proj) == [d \in DOMAIN o.S.dirs |-> AdoptDir(o, d, proj)]
@@ -211,9 +230,7 @@ Problem(o) ==
   LET r == ReplyProblem(o) IN
   IF r # "ok" THEN r
   ELSE LET dp == FirstDirProblem(o, Line.proj, 1) IN
-       IF dp # "ok" /\ dp # "NC:lazy-flag" THEN dp
-       ELSE LET lp == FirstLeafProblem(o, Line.leaves, 1) IN
-            IF lp # "ok" THEN lp ELSE dp
+       IF dp # "ok" THEN dp ELSE FirstLeafProblem(o, Line.leaves, 1)
 
 -----------------------------------------------------------------------------
 (* Paginated listings, judged on the observed data alone: an entry (its    *)
@@ -252,7 +269,7 @@ FromProj(p, pend) ==
    nc |-> MaxCk(p.ents), ents |-> Ents(p.ents)]
 
 TInit ==
-  /\ Init /\ l = 1 /\ verdict = "ok" /\ sess = [s \in Sids |-> IdleSess]
+  /\ Init /\ l = 1 /\ verdict = "ok" /\ sess = [s \in Sids |-> IdleSess] /\ nonconf = 0
 
 \* a new hierarchy
 TReset ==
@@ -262,7 +279,7 @@ TReset ==
   /\ leaves' = [x \in {} |-> 0]
   /\ sess' = [s \in Sids |-> IdleSess]
   /\ verdict' = IF Line.proj[1].deleted \/ Line.proj[1].ents # <<>> THEN "C13:root-not-empty" ELSE "ok"
-  /\ UNCHANGED <<reply, lst, hist>>
+  /\ UNCHANGED <<reply, lst, hist, nonconf>>
 
 \* the driver re-established a state reached by an earlier validated trace
 TJump ==
@@ -276,12 +293,12 @@ TJump ==
                   IN [k |-> x.k, links |-> x.links, t |-> x.t]]
   /\ sess' = [s \in Sids |-> IdleSess]
   /\ verdict' = "ok"
-  /\ UNCHANGED <<reply, lst, hist>>
+  /\ UNCHANGED <<reply, lst, hist, nonconf>>
 
 \* (TLC re-evaluates a LET definition at every use; binding the
 \* intermediate results with \E over singleton sets evaluates them once.)
 Judge(outs, cands, probs) ==
-  LET good == {x \in cands : probs[x] \in {"ok", "NC:lazy-flag"}}
+  LET good == {x \in cands : probs[x] = "ok"}
       o == IF good # {} THEN CHOOSE x \in good : TRUE
            ELSE IF cands # {} THEN CHOOSE x \in cands : TRUE
            ELSE CHOOSE x \in outs : TRUE
@@ -291,8 +308,9 @@ TCall ==
   /\ IsEvent("call")
   /\ IF ~ArgsKnown
      THEN /\ verdict' = "NC:call-on-object-unknown-to-the-model"
-          /\ UNCHANGED <<dirs, leaves, sess>>
-     ELSE \E outs \in {OutsOf} :
+          /\ UNCHANGED <<dirs, leaves, sess, nonconf>>
+     ELSE \E raw \in {OutsOf} :
+          \E outs \in {{Normalized(x) : x \in raw}} :
           \E cands \in {{x \in outs : x.st = Line.st}} :
           \E probs \in {[x \in cands |-> Problem(x)]} :
           \E j \in {Judge(outs, cands, probs)} :
@@ -302,16 +320,15 @@ TCall ==
              /\ dirs' = nd
              /\ leaves' = j.o.S.leaves
              /\ sess' = ns
-             /\ verdict' = IF j.p # "ok" /\ j.p # "NC:lazy-flag" THEN j.p
-                           ELSE IF sp # "ok" THEN sp
-                           ELSE j.p
+             /\ verdict' = IF j.p # "ok" THEN j.p ELSE sp
+             /\ nonconf' = IF (\E x \in raw : x.st = j.o.st /\ LazyMismatch(x, Line.proj)) THEN nonconf + 1 ELSE nonconf
   /\ UNCHANGED <<mode, reply, lst, hist>>
 
 \* the real code panicked inside a call
 TPanic ==
   /\ IsEvent("panic")
   /\ verdict' = "C13:panic"
-  /\ UNCHANGED <<dirs, leaves, mode, reply, lst, hist, sess>>
+  /\ UNCHANGED <<dirs, leaves, mode, reply, lst, hist, sess, nonconf>>
 
 TNext == TReset \/ TJump \/ TCall \/ TPanic
 
@@ -325,6 +342,8 @@ VerdictOK == verdict = "ok"
 C13_ObservedMapListAgreement == verdict = "ok" => C13_MapListAgreement
 C13_ObservedDeletedIsEmpty == verdict = "ok" => C13_DeletedIsEmpty
 C13_ObservedLinkCounts == verdict = "ok" => C13_LinkCounts
+
+NonconfReport == (l <= Len(TraceLog)) \/ PrintT(<<"NONCONF", nonconf>>)
 
 Accepted ==
   /\ TLCGet("stats").diameter - 1 = Len(TraceLog)
